@@ -322,7 +322,9 @@ type Mem struct {
 	Files map[string]*MemFile // by path; directories have Info.IsDir
 }
 
-func NewMem() *Mem { return &Mem{Files: map[string]*MemFile{"/": {Info: webdav.FileInfo{Path: "/", IsDir: true}}}} }
+func NewMem() *Mem {
+	return &Mem{Files: map[string]*MemFile{"/": {Info: webdav.FileInfo{Path: "/", IsDir: true}}}}
+}
 
 func (m *Mem) Put(fi webdav.FileInfo, data []byte) {
 	m.mu.Lock()
